@@ -214,6 +214,9 @@ public:
 template<typename X, typename Y>
 class OptimalPiecewiseLinearModel<X, Y>::CanonicalSegment {
     friend class OptimalPiecewiseLinearModel;
+#ifdef PGM_INDEX_VERIF
+    friend struct ::pgm_verif_access;
+#endif
 
     Point rectangle[4];
     X first;
